@@ -23,8 +23,12 @@ void vf_ghost_init(int unrelated)
 
 uint8_t *vf_make_block(uint64_t id, uint64_t bytes, uint64_t align)
 {
+#ifdef VF_BLOCK_K
+    uint64_t k = VF_BLOCK_K; /* units whose blocks are read and written byte-wise use constant-size objects (DESIGN 11) */
+#else
     uint64_t k = nondet_u64();
     __CPROVER_assume(k <= VF_MAXK);
+#endif
     __CPROVER_assume(bytes <= VF_MAX_BYTES && align <= 4096);
     /* block base = object start + align*k: aligned to the allocator's value_type and, for k odd, to nothing more */
     uint64_t base = align * k;
@@ -79,14 +83,48 @@ uint64_t f_vf_soccc(uint64_t id) { return VF_SOCCC(id); }
  * the witness byte g_wit, which is copied faithfully.  g_wit is an arbitrary constant chosen by the harness, so a
  * postcondition proved about byte g_wit of a copy holds for every byte. */
 uint64_t g_wit;
+uint64_t g_win[VF_NWIN];
+#ifndef VF_WINDOWS
+#define VF_WINDOWS 0 /* units that need typed fields to survive a run-time-length copy ask for 1..VF_NWIN windows */
+#endif
+#define VF_WB(w, b) do { if (g_win[w] + (b) < n) ((uint8_t *)d)[g_win[w] + (b)] = t##w##b; } while (0)
+#define VF_LB(w, b) uint8_t t##w##b = g_win[w] + (b) < n ? ((const uint8_t *)s)[g_win[w] + (b)] : 0
+#define VF_WIN_LOAD(w) VF_LB(w, 0); VF_LB(w, 1); VF_LB(w, 2); VF_LB(w, 3); VF_LB(w, 4); VF_LB(w, 5); VF_LB(w, 6); VF_LB(w, 7)
+#define VF_WIN_STORE(w) do { VF_WB(w, 0); VF_WB(w, 1); VF_WB(w, 2); VF_WB(w, 3); VF_WB(w, 4); VF_WB(w, 5); VF_WB(w, 6); VF_WB(w, 7); } while (0)
 void *vf_memcpy(void *d, const void *s, uint64_t n)
 {
     __CPROVER_assert(n == 0 || __CPROVER_r_ok(s, n), "memcpy: source range readable");
     __CPROVER_assert(n == 0 || __CPROVER_w_ok(d, n), "memcpy: destination range writable");
     if (n != 0)
     {
+        /* faithful at the witness byte g_wit and at VF_WINDOWS eight-byte windows g_win[], arbitrary elsewhere:
+         * an over-approximation of the copy (also of an overlapping memmove: everything is read before written) */
         uint8_t w = g_wit < n ? ((const uint8_t *)s)[g_wit] : 0;
+#if VF_WINDOWS >= 1
+        VF_WIN_LOAD(0);
+#endif
+#if VF_WINDOWS >= 2
+        VF_WIN_LOAD(1);
+#endif
+#if VF_WINDOWS >= 3
+        VF_WIN_LOAD(2);
+#endif
+#if VF_WINDOWS >= 4
+        VF_WIN_LOAD(3);
+#endif
         __CPROVER_havoc_slice(d, n);
+#if VF_WINDOWS >= 1
+        VF_WIN_STORE(0);
+#endif
+#if VF_WINDOWS >= 2
+        VF_WIN_STORE(1);
+#endif
+#if VF_WINDOWS >= 3
+        VF_WIN_STORE(2);
+#endif
+#if VF_WINDOWS >= 4
+        VF_WIN_STORE(3);
+#endif
         if (g_wit < n) ((uint8_t *)d)[g_wit] = w;
     }
     return d;
